@@ -153,7 +153,7 @@ class Target:
             th = rc.package(pk)
             ids = th.chemicals.IDs
             if not base.startswith('M'):
-                phase = 'g' if base == 'S.g' else 'l'
+                phase = 'g' if base.startswith('S.g') else 'l'
                 s = t.Stream(None, phase=phase, T=T, P=P, thermo=th)
                 flat = self.n0 if self.n0.ndim == 1 else self.n0.sum(0)     # (a phase-tagged reaction must reject it)
                 for i, x in enumerate(flat):
@@ -390,7 +390,7 @@ class Single(System):
     nontrivial_per_config = True
 
     def warm(self): _load()
-    def reset_globals(self): fx.reset_globals()
+    def reset_globals(self): rc.reset_reaction_globals()
     def depth(self, tier): return 1
     def describe(self, tier):
         return dict(menu=[m[0] for m in MENU], feeds=list(FEEDS), X=list(self._X(tier)))
@@ -545,7 +545,7 @@ class Sets(System):
     tier = 'thorough'
 
     def warm(self): _load()
-    def reset_globals(self): fx.reset_globals()
+    def reset_globals(self): rc.reset_reaction_globals()
     def depth(self, tier): return 1
     def describe(self, tier): return dict(kinds=list(SET_KINDS) + ['nested'], feeds=list(SET_FEEDS), X_patterns=list(XPATS))
 
@@ -677,6 +677,121 @@ class Sets(System):
         return repr((kind, tag, route != 'mol', a[0], a[1], a[2], obs, shared))
 
 
+
+# ---------------------------------------------------------------------------------------------------------
+# layer 1c: stoichiometries completed by the library (correct_atomic_balance)
+
+class Balance(System):
+    """The stoichiometry is written with WRONG magnitudes (every coefficient that is to be solved is written as +-1) and completed by
+    `correct_atomic_balance`: through the constructor flag, through the method with its default (the reactant is held constant), and
+    with the documented `constants=[...]` argument holding every subset of 1-2 species constant (written k x their true coefficient),
+    with and without the reactant among them.  Only (reaction, constants) pairs whose remaining coefficients are uniquely determined
+    by the element balance are enumerated.  Oracle: the balanced object is the menu reaction normalised on its reactant, and applied
+    to a target it consumes exactly X x feed of the reactant (same oracle as c05.single)."""
+    name = 'c05.balance'
+    tier = 'thorough'
+
+    def warm(self): _load()
+    def reset_globals(self): rc.reset_reaction_globals()
+    def depth(self, tier): return 1
+
+    def configs(self, tier, seed):
+        self.tier = tier
+        cfgs = []
+        for ri in range(len(MENU)):
+            d = MENU[ri][1]
+            species = list(d)
+            for r in rc.reactants_of(ri):
+                for tag in ('none', 'nat'):
+                    for when in ('mol', 'wt-before'):
+                        modes = [('ctor', ()), ('default', ())] if when == 'mol' else [('default', ())]
+                        for n in (1, 2):
+                            for cs in itertools.combinations(species, n):
+                                modes.append(('constants', cs))
+                        for mode, cs in modes:
+                            held = set(cs) if mode == 'constants' else {r}
+                            unknown = [k for k in species if k not in held]
+                            if not unknown: continue
+                            A = rc.ATOM_MATRIX[:, [POS[k] for k in unknown]]
+                            A = A[np.abs(A).sum(1) > 0]
+                            if np.linalg.matrix_rank(A) < len(unknown): continue          # underspecified: documented RuntimeError
+                            for k in (1.0, 2.0):
+                                if tier == 'quick' and k == 2.0 and mode != 'constants': continue
+                                cfgs.append((ri, r, tag, when, mode, cs, k))
+        kk = seed % len(cfgs)
+        return cfgs[kk:] + cfgs[:kk]
+
+    def build(self, config):
+        t = fx.tmo()
+        ri, r, tag, when, mode, cs, k = config
+        st = St(); st.config = config
+        st.tagmap = rc.tags_of(ri, None if tag == 'none' else tag)
+        d = MENU[ri][1]
+        held = set(cs) if mode == 'constants' else {r}
+        written = {sp: (k * x if sp in held else (1.0 if x > 0 else -1.0)) for sp, x in d.items()}
+        chems = rc.package('P').chemicals
+        st.error = None
+        try:
+            if mode == 'ctor':
+                st.rxn = t.Reaction(rc.as_string(written, st.tagmap), reactant=r, X=1.0, chemicals=chems, correct_atomic_balance=True)
+            else:
+                st.rxn = t.Reaction(rc.as_string(written, st.tagmap), reactant=r, X=1.0, chemicals=chems)
+                if when == 'wt-before': st.rxn.basis = 'wt'
+                if mode == 'default': st.rxn.correct_atomic_balance()
+                else: st.rxn.correct_atomic_balance(list(cs))
+        except Exception as e:
+            st.rxn = None; st.error = f'{type(e).__name__}: {e}'
+        st.last = None; st.moved = False
+        return st
+
+    def actions(self, st):
+        tks = ['S.g', 'A'] if st.tagmap is None else ['M', 'A2']
+        acts = [('stoichiometry',)]
+        for tk in tks:
+            for f in ('excess', 'stoich', 'limit'):
+                for X in (0.3, 1.0):
+                    if self.tier == 'quick' and tk in ('A', 'A2') and f != 'excess': continue
+                    acts.append((tk, f, X))
+        return acts
+
+    def step(self, st, a):
+        ri, r, tag, when, mode, cs, k = st.config
+        wt = when != 'mol'
+        match = dict(mode=mode, tagged=tag != 'none', basis='wt' if wt else 'mol',
+                     reactant_held=(r in cs) if mode == 'constants' else True)
+        if st.rxn is None:
+            raise Violation('unexpected-exception', f'balancing a uniquely determined stoichiometry failed: {st.error}',
+                            match=dict(match, exc=st.error.split(':')[0], where='balance'))
+        tg = None if tag == 'none' else tag
+        if a[0] == 'stoichiometry':
+            ref = rc.RefRxn(ri, r, 1.0, tg)
+            nu = np.array(st.rxn.stoichiometry.to_array(), float)
+            want = ref.nu_wt() if wt else ref.nu
+            err = float(np.abs(nu - want).max())
+            if not np.isfinite(nu).all() or err > 1e-9 * float(np.abs(want).max()):
+                raise Violation('balanced-stoichiometry', f'after correct_atomic_balance the stoichiometry is {nu.tolist()}, the balanced reaction '
+                                f'normalised on {r} is {want.tolist()}', match=match, residual=err, detail=dict(reaction=st.rxn))
+            st.last = a
+            return ('stoichiometry',)
+        tk, f, X = a
+        match['target'] = tk
+        n0 = feed_array(ri, r, f, st.tagmap)
+        phases = rc.phases_of(st.tagmap) if st.tagmap else ()
+        tgt = Target(tk, n0, phases)
+        st.rxn.X = X
+        ref = rc.RefRxn(ri, r, X, tg)
+        outcome = call_reaction(st.rxn, tgt, match)
+        check_outcome(ref, tgt, wt, outcome, match, detail=dict(reaction=st.rxn))
+        st.moved = moved(ref, n0)
+        st.last = (a, outcome)
+        return (outcome, bool(st.moved))
+
+    def canon(self, st): return (st.config, None if st.rxn is None else rc.rxn_digest(st.rxn), st.last)
+    def nontrivial(self, st, a, obs): return bool(st.moved) or obs[0] in ('infeasible', 'stoichiometry')
+    def outcome(self, st, a, obs):
+        ri, r, tag, when, mode, cs, k = st.config
+        return repr((mode, tag, when, (r in cs) if mode == 'constants' else None, len(cs), k, a[0], obs))
+
 # ---------------------------------------------------------------------------------------------------------
 # layer 2: histories — one reaction object reused
 
@@ -688,11 +803,21 @@ HIST_RXNS = [
 ]
 
 class History(System):
-    name = 'c05.history'
+    """mode 'members': one reaction object reused on three targets, conversions / basis changed in between, members of a set mutated
+                       after the set was built
+       mode 'pkg'    : ONE stream, two equivalent reaction objects — one defined on the stream's own package, one on a foreign
+                       (re-ordered) package — applied in every order on either basis (the stream's cached mass view survives calls)
+       mode 'force'  : force_reaction (succeeding, and failing with a documented error) interleaved with ordinary calls; an ordinary
+                       call whose conversion needs a negative flow must still raise InfeasibleRegion afterwards.  The module-global
+                       `thermosteam.reaction.CHECK_FEASIBILITY` is reset before every execution and is part of the canonical state."""
     nontrivial_per_config = True
 
+    def __init__(self, name='c05.history', mode='members'):
+        self.name = name
+        self.mode = mode
+
     def warm(self): _load()
-    def reset_globals(self): fx.reset_globals()
+    def reset_globals(self): rc.reset_reaction_globals()
     def depth(self, tier): return 3 if tier == 'quick' else 4
     def describe(self, tier): return dict(reactions=[repr(h) for h in HIST_RXNS])
 
@@ -715,6 +840,13 @@ class History(System):
         elif kind == 'S': st.rxn = t.SeriesReaction(rx)
         else: st.rxn = t.ReactionSystem(*rx)
         st.parts = rx
+        st.rxn2 = None
+        if self.mode == 'pkg':
+            rx2 = [rc.make_reaction(ri, r, 0.3, 'str', tg, route, pkg='R') for ri, r in items]
+            if kind == 'single': st.rxn2 = rx2[0]
+            elif kind == 'P': st.rxn2 = t.ParallelReaction(rx2)
+            elif kind == 'S': st.rxn2 = t.SeriesReaction(rx2)
+            else: st.rxn2 = t.ReactionSystem(*rx2)
         st.basis = b0
         st.mbasis = [b0] * len(rx)        # basis of every member reaction object (may be changed AFTER the set was built)
         st.mX = [None] * len(rx)          # conversion written to a member reaction object after a Parallel/Series set was built
@@ -727,6 +859,8 @@ class History(System):
         else:
             st.phases = ()
             kinds = ('S.g', 'SR', 'A')
+        if self.mode == 'pkg': kinds = kinds[:2]          # streams only: own package P and foreign package R
+        if self.mode == 'force': kinds = kinds[:1] + kinds[2:]
         n0 = set_feed('gen', items, st.tagmaps)
         st.targets = [Target(k, n0, st.phases) for k in kinds]
         st.model = [n0.copy() for _ in kinds]          # running reference composition of every target
@@ -743,6 +877,13 @@ class History(System):
 
     def actions(self, st):
         kind, items, tag, b0 = st.config
+        if self.mode == 'pkg':
+            acts = [(op, k) for k in range(len(st.targets)) for op in ('apply', 'apply2')]
+            if kind == 'single': acts += [('basis', 'wt'), ('basis', 'mol')]
+            return acts
+        if self.mode == 'force':
+            acts = [('apply', 0), ('force', 0), ('force', 1), ('forcebad',), ('probe',), ('setX', 0, 1.0)]
+            return acts
         acts = [('apply', k) for k in range(len(st.targets))]
         acts += [('setX', 0, x) for x in (0.0, 0.3, 1.0)]
         if len(items) > 1: acts += [('setX', len(items) - 1, 0.5)]
@@ -784,10 +925,13 @@ class History(System):
             st.mX[i] = x
             return ('mX',)
         if op == 'basis':
-            try: st.rxn.basis = a[1]
+            try:
+                st.rxn.basis = a[1]
+                if st.rxn2 is not None: st.rxn2.basis = a[1]
             except Exception as e:
                 raise Violation('unexpected-exception', f'{type(e).__name__}: {e}', match=dict(match, exc=type(e).__name__))
             st.basis = a[1]
+            st.mbasis = [a[1]] * len(st.mbasis)
             ref = self._tree(st)
             nu = np.array(st.rxn.stoichiometry.to_array(), float)
             want = ref.nu_wt() if st.basis == 'wt' else ref.nu
@@ -795,28 +939,80 @@ class History(System):
                 raise Violation('basis-round-trip', f'stoichiometry on basis {st.basis} is {nu.tolist()} expected {want.tolist()}',
                                 match=match, residual=float(np.abs(nu - want).max()))
             return ('basis', st.basis)
+        if op in ('forcebad', 'probe'):
+            tree = self._tree(st)
+            wt = st.basis == 'wt'
+            if op == 'forcebad':
+                # force_reaction on something the reaction must reject: a stream holding a chemical the reaction's package lacks /
+                # a single-phase stream for a phase-tagged reaction.  The target is thrown away.
+                tk = 'S.l' if st.tagmaps else 'SXn'
+                tgt = Target(tk, set_feed('gen', items, st.tagmaps), st.phases)
+                match['target'] = tk
+                try:
+                    st.rxn.force_reaction(tgt.arg)
+                except Exception as e:
+                    from thermosteam.exceptions import UndefinedChemical
+                    if isinstance(e, (UndefinedChemical, ValueError)):
+                        return ('forcebad', type(e).__name__)
+                    raise Violation('unexpected-exception', f'{type(e).__name__}: {e}', match=dict(match, exc=type(e).__name__))
+                raise Violation('missing-rejection', 'force_reaction accepted a target it cannot react', match=match)
+            # probe: an ordinary call on a fresh lean feed (reactants only): where the conversion needs a negative flow it must raise
+            tgt = Target(st.targets[0].kind, set_feed('lean', items, st.tagmaps), st.phases)
+            match['target'] = tgt.kind; match['probe'] = True
+            outcome = call_reaction(st.rxn, tgt, match)
+            n_ref, exp = check_outcome(tree, tgt, wt, outcome, match, detail=dict(reaction=st.rxn))
+            st.last_moved = outcome == 'infeasible'
+            return ('probe', outcome)
+        if op == 'force':
+            _, k = a
+            tgt = st.targets[k]
+            match['target'] = tgt.kind
+            tree = self._tree(st)
+            wt = st.basis == 'wt'
+            n0 = st.model[k]
+            n_ref = rc.ref_apply(tree, n0, wt=wt and tgt.units == 'raw')
+            d0 = rc.rxn_digest(st.rxn)
+            try: st.rxn.force_reaction(tgt.arg)
+            except Exception as e:
+                raise Violation('unexpected-exception', f'force_reaction: {type(e).__name__}: {e}', match=dict(match, exc=type(e).__name__))
+            if rc.rxn_digest(st.rxn) != d0:
+                raise Violation('reaction-mutated', 'force_reaction changed the reaction object', match=match)
+            tgt.structure_violations(match)
+            got = tgt.read()
+            sc = _scale(n0)
+            err = float(np.abs(got - n_ref).max())
+            if err > FLOW_RTOL * sc:
+                raise Violation('flows', f'force_reaction: flows differ from n + X*n[r]*nu by {err:.6g}', match=match, residual=err / sc,
+                                detail=dict(feed=n0, reference=n_ref, observed=got))
+            st.last_moved = bool(np.abs(n_ref - n0).max() > 0)
+            st.model[k] = got
+            st.n_moves += 1
+            return ('force', bool(got.min() < 0))
         _, k = a
         tgt = st.targets[k]
         match['target'] = tgt.kind
+        if op == 'apply2': match['defined_on'] = 'foreign' if tgt.pkg == 'P' else 'own'
+        elif self.mode == 'pkg': match['defined_on'] = 'own' if tgt.pkg == 'P' else 'foreign'
+        rxn = st.rxn2 if op == 'apply2' else st.rxn
         tree = self._tree(st)
         wt = st.basis == 'wt'
         # the reference continues from the running model composition of that target
         tgt.n0 = st.model[k]
-        d0 = rc.rxn_digest(st.rxn)
+        d0 = rc.rxn_digest(rxn)
         mixed = any(b != st.basis for b in st.mbasis)
         match['members'] = 'rebased' if mixed else ('X-changed' if any(x is not None for x in st.mX) else 'untouched')
         if mixed:
             # a member was moved to another basis after the set was built: the call may refuse (documented RuntimeError of
             # ReactionSystem); if it returns normally it must still do what the reactions say (both bases give the same stream)
             try:
-                outcome = call_reaction(st.rxn, tgt, match)
+                outcome = call_reaction(rxn, tgt, match)
             except Violation as v:
                 if v.clause == 'unexpected-exception' and v.match.get('exc') == 'RuntimeError' and 'same basis' in v.msg:
                     raise Rejected('RuntimeError:not all reactions have the same basis', cut=True)
                 raise
         else:
-            outcome = call_reaction(st.rxn, tgt, match)
-        if rc.rxn_digest(st.rxn) != d0:
+            outcome = call_reaction(rxn, tgt, match)
+        if rc.rxn_digest(rxn) != d0:
             raise Violation('reaction-mutated', 'calling the reaction changed the reaction object', match=match)
         def judge():
             try:
@@ -849,9 +1045,10 @@ class History(System):
         return (outcome, st.last_moved)
 
     def canon(self, st):
-        return (st.config, rc.rxn_digest(st.rxn), tuple(rc.rxn_digest(r) for r in st.parts), tuple(st.Xs), st.basis, tuple(st.mbasis), tuple(st.mX),
+        return (st.config, rc.rxn_digest(st.rxn), None if st.rxn2 is None else rc.rxn_digest(st.rxn2), rc.feasibility_flag(),
+                tuple(rc.rxn_digest(r) for r in st.parts), tuple(st.Xs), st.basis, tuple(st.mbasis), tuple(st.mX),
                 tuple(tuple(fx.r12(x) for x in m.ravel()) for m in st.model),
-                tuple(fx.stream_digest(t_.stream)[3] if t_.stream is not None else None for t_ in st.targets))
+                tuple((fx.stream_digest(t_.stream)[3], fx.stream_digest(t_.stream)[-1]) if t_.stream is not None else None for t_ in st.targets))
 
     def nontrivial(self, st, a, obs):
         return bool(st.last_moved) and st.n_moves >= 2        # a reaction object really used more than once
@@ -860,4 +1057,4 @@ class History(System):
         return repr((st.config[0], st.config[2], st.basis, a[0], obs, tuple(st.mbasis) if a[0] == 'apply' else None))
 
 
-SYSTEMS = [Single(), Sets(), History()]
+SYSTEMS = [Single(), Sets(), Balance(), History(), History('c05.history.pkg', 'pkg'), History('c05.history.force', 'force')]
